@@ -379,16 +379,21 @@ def evaluate(e, lookup=None):
     A result carries .f = True when a machine float took part (roots); its value is then only
     meaningful up to float precision and callers compare with a tolerance."""
     MAX_BITS_SEEN[0] = 0
+    FLOAT_SEEN[0] = False
     r = _evaluate(e, lookup)
+    if r.f:
+        FLOAT_SEEN[0] = True
     return r
 
 
 MAX_BITS_SEEN = [0]      # largest intermediate (numerator+denominator bits) of the current evaluation
+FLOAT_SEEN = [False]     # a machine float (root, float-valued unit) took part somewhere in the current evaluation
 
 
 def _flt(res, *ops):
-    if any(o.f for o in ops):
+    if res.f or any(o.f for o in ops):
         res.f = True
+        FLOAT_SEEN[0] = True
     b = res.v.numerator.bit_length() + res.v.denominator.bit_length()
     if b > MAX_BITS_SEEN[0]:
         MAX_BITS_SEEN[0] = b
@@ -464,6 +469,7 @@ def _evaluate(e, lookup=None):
                     except (OverflowError, ValueError, ZeroDivisionError):
                         raise OutOfScope("root out of float range")
                     r.f = True           # rink computes roots in machine floats
+                    FLOAT_SEEN[0] = True
                     return r
                 if a.d:
                     raise DimErr("non-integer power of dimensioned value")
